@@ -384,6 +384,8 @@ func checkC13(c *Ctx, r *Report) {
 	c13FreshGeneration(c, r, "C13.R4.fresh-generation")
 	r.rule("C13.R5.accepted-conn", 1, "a connection serveTCP accepted is handed to a connection goroutine or closed on every path")
 	acceptedConnNotDropped(c, r, "C13.R5.accepted-conn")
+	r.rule("C13.R4.listener-not-leaked", 3, "a socket ListenAndServe opened is installed in the server or closed before any return")
+	listenerNotLeaked(c, r, "C13.R4.listener-not-leaked")
 }
 
 func fnDisplay(f *ssa.Function) string {
